@@ -237,12 +237,13 @@ func main() {
 			fmt.Fprintln(os.Stderr, "c19writers:", err)
 			os.Exit(1)
 		}
-		fmt.Fprintf(&b, "/-- %s, type %s, stream field `%s` -/\ndef %s : List String := [", t.file, t.typ, t.field, t.def)
+		fmt.Fprintf(&b, "/-- %s, type %s, stream field `%s`: (kind of root: go | api | unknown, root) -/\ndef %s : List (String × String) := [", t.file, t.typ, t.field, t.def)
 		for i, w := range ws {
 			if i > 0 {
 				b.WriteString(", ")
 			}
-			b.WriteString(leanStr(w))
+			k := strings.Index(w, "@")
+			fmt.Fprintf(&b, "(%s, %s)", leanStr(w[:k]), leanStr(w[k+1:]))
 		}
 		b.WriteString("]\n\n")
 	}
